@@ -40,10 +40,15 @@ theorem depth_limit_rejects (ev : Evalr ρ) (fuel : Nat) (st : St ρ) (e : Elem)
     genElem ev (fuel + 1) st e kids = (st, .error (.depthLimit (st.depth + 1) st.cfg.depthLimit)) := by
   rw [genElem]; simp [h]
 
-/-- within the limit the element is dispatched one level deeper -/
+/-- within the limit the element is dispatched one level deeper, the counter is put back, and only the
+    clip-path adjustment of the bounding box follows -/
 theorem depth_within_limit_dispatches (ev : Evalr ρ) (fuel : Nat) (st : St ρ) (e : Elem) (kids : Option Nodes)
     (h : st.depth + 1 ≤ st.cfg.depthLimit) :
-    (genElem ev (fuel + 1) st e kids).2 = (dispatch ev fuel { st with depth := st.depth + 1 } e kids).2 := by
+    genElem ev (fuel + 1) st e kids =
+      clipPost ev e
+        ({ (dispatch ev fuel { st with depth := st.depth + 1 } e kids).1 with
+            depth := (dispatch ev fuel { st with depth := st.depth + 1 } e kids).1.depth - 1 },
+         (dispatch ev fuel { st with depth := st.depth + 1 } e kids).2) := by
   rw [genElem]
   have : ¬ st.depth + 1 > st.cfg.depthLimit := by omega
   simp [this]
@@ -58,17 +63,17 @@ theorem limit_error_final (ev : Evalr ρ) (fuel : Nat) (st : St ρ) (t : Tag) (t
   rw [onePass]
   simp [hnode, hspecs, hl]
 
-/-- a loop that has run `loop-limit` passes and wants another is an error, never a truncated result -/
+/-- a loop that has made more than `loop-limit` passes is an error, never a truncated result — whatever
+    its `until` condition would have said -/
 theorem loop_limit_rejects (ev : Evalr ρ) (fuel : Nat) (st : St ρ) (ks : Nodes) (c : Option Nat) (w u : Option Str)
     (n : Str) (v s : Rat) (i : Nat) (acc : List Ev) (bb)
-    (st1 st2 st3 : St ρ) (r : List Ev × Option Gen.BoundingBox)
+    (st1 st2 : St ρ) (r : List Ev × Option Gen.BoundingBox)
     (hpre : preTest ev st c w i = (st1, .ok true))
     (hbody : processNodes ev fuel (bindLoopVar st1 n v) ks = (st2, .ok r))
-    (hpost : postTest ev st2 u = (st3, .ok false))
-    (hlim : i + 1 > st3.cfg.loopLimit) :
-    loopIter ev (fuel + 1) st ks c w u n v s i acc bb = (st3, .error (.loopLimit (i + 1) st3.cfg.loopLimit)) := by
+    (hlim : i + 1 > st2.cfg.loopLimit) :
+    loopIter ev (fuel + 1) st ks c w u n v s i acc bb = (st2, .error (.loopLimit (i + 1) st2.cfg.loopLimit)) := by
   rw [loopIter]
-  simp [seq, hpre, hbody, hpost, hlim]
+  simp [seq, hpre, hbody, hlim]
 
 /-- a count loop stops exactly when the count is reached: with `iteration = count` no further pass runs -/
 theorem count_loop_stops (ev : Evalr ρ) (fuel : Nat) (st : St ρ) (ks : Nodes) (c : Nat) (w u : Option Str)
